@@ -68,13 +68,16 @@ CLAIMS = {
    text='Static cross-check, valid for every diagram, of the conventions that link traversal, crossing signs, resolutions, mirroring and braid closures rely on: the tables encoded in pass / arcs / resolve / mirror / the sign match / ori_pres_state / the braid-closure crossing codes are extracted from the MIR of the functions themselves and must agree with each other (involution and orbit structure, mirror/bit duality, sign parity under mirror and reversal, in/out pairing of the Seifert smoothing, counter-clockwise top-entry braid codes with the generator sign). That components partition the edge set of every PD code and that closures have the right component count are NOT decided.',
    ref='DESIGN.md §3 E7; §4 C18',
    note='Trusted: PD-code convention (index 0 = incoming under end, counter-clockwise); Sign::is_positive by name.'),
+ 'C08': dict(cat='other', tech='static analysis: block identities of the Schur reduction verified in a free non-commutative algebra on expressions read from MIR; role-table agreement of the reducer step',
+   text='Static analysis of the structure of one chain-reduction step, valid for every complex, pivot strategy and schedule: the block expressions of the Schur reduction (read from the code) satisfy s = d - c a^-1 b, F_tgt*M*B_src = s, F*B = 1 and the chain-map conditions as identities of the free non-commutative algebra, and the step applies the column permutation to everything on C_i and the row permutation to everything on C_{i+1} (neighbouring differentials, accumulated transforms, tracked vectors) with the same rank, degrees and source/target transforms; merged transforms compose in a fixed order; no float decides a value. That the reduced complex has the same homology, that the triangular solvers and pivot permutations are correct, and the concurrency clauses (C11/C12) are NOT decided here.',
+   ref='DESIGN.md §3 E17, E18, E10b; §4 C08',
+   note='Trusted: contracts of solve_triangular(_left), SpMat::permute, Trans::append_perm/merge.'),
 }
 
 NA = {
  'C02': 'invariance under Reidemeister/braid moves quantifies over pairs of diagrams and compares computed homology tables; no clause is a shape property of the source beyond the crossing tables decided under C18',
  'C03': 'universal-coefficient relations are arithmetic between ranks/torsion computed at run time; no static argument in reach bounds them',
  'C07': 'rank/torsion/coordinate-map correctness is linear algebra on runtime values (products of SNF outputs); no structural necessary condition beyond what shape asserts already enforce',
- 'C08': 'chain-homotopy equivalence of the reduction is matrix arithmetic on runtime values; its schedule clause is decided under C11/C12',
 }
 PENDING = 'not claimed at this commit: its static check (DESIGN.md §4) is still being built'
 
